@@ -147,7 +147,7 @@ class FileSplicer:
             k += 1
 
         # ---- token rules (N10 and friends)
-        for (rid, pat, rep) in self.rules:
+        for (rid, pat, rep) in ([] if any(s.word == 'norules' for s in subs) else self.rules):
             for k in find_token_seq(src, it.body_open, it.body_close, pat):
                 self.ed.replace(src.t(k).start, src.t(k + len(pat) - 1).end, rep); applied.append(rid)
 
@@ -275,6 +275,32 @@ class FileSplicer:
                         self.ed.replace(src.t(q).start, src.t(q).end, ' { Ok(vx_v) => vx_v, Err(vx_e) => return Err(From::from(vx_e)) }')
                         applied.append('N16')
 
+        # ---- N20: `fn f(mut self, ..) { B }` -> `fn f(self, ..) { let mut vx_self = self; B[self := vx_self] }`
+        for s in subs:
+            if s.word == 'mutself':
+                q = an.params_open + 1
+                if not (src.is_id(q, 'mut') and src.is_id(q + 1, 'self')):
+                    raise SpliceError('lost anchor: fn %s does not take `mut self`' % key)
+                self.ed.delete(src.t(q).start, src.t(q + 1).start)
+                self.ed.insert(src.t(it.body_open).end, ' let mut vx_self = self; ')
+                for k2 in range(it.body_open + 1, it.body_close):
+                    if src.is_id(k2, 'self'):
+                        self.ed.replace(src.t(k2).start, src.t(k2).end, 'vx_self')
+                applied.append('N20')
+
+        for s in subs:
+            if s.word == 'mutparam':
+                # N20: `fn f(mut x: T)` -> `fn f(x: T) { let mut x = x; .. }`
+                nm = s.args[0]
+                hit = None
+                for q in range(an.params_open + 1, an.params_close):
+                    if src.is_id(q, 'mut') and src.is_id(q + 1, nm) and src.is_p(q + 2, ':'): hit = q
+                if hit is None:
+                    raise SpliceError('lost anchor: fn %s has no `mut %s` parameter' % (key, nm))
+                self.ed.delete(src.t(hit).start, src.t(hit + 1).start)
+                self.ed.insert(src.t(it.body_open).end, ' let mut %s = %s; ' % (nm, nm))
+                applied.append('N20')
+
         # ---- closures: N6 (parameter patterns) + N15 (closure contracts)
         closures = self.find_closures(it)
         for s in subs:
@@ -308,23 +334,28 @@ class FileSplicer:
         for s in subs:
             if s.word == 'wrapcall':
                 k_ord = int(s.args[0]); meth = s.args[1]; wrapper = s.args[2]
-                hits = [k for k in find_token_seq(src, it.body_open, it.body_close, ['.', meth, '('])]
+                hits = []
+                for k in find_token_seq(src, it.body_open, it.body_close, ['.', meth]):
+                    q = k + 2
+                    if src.is_p(q, ':') and src.is_p(q + 1, ':') and src.is_p(q + 2, '<'):
+                        q = src.skip_angle(q + 2)
+                    if src.is_p(q, '('): hits.append((k, q))
                 if k_ord >= len(hits):
                     raise SpliceError('lost anchor: fn %s method call .%s( #%d (found %d)' % (key, meth, k_ord, len(hits)))
-                k = hits[k_ord]
+                k, po = hits[k_ord]
                 rs = self.postfix_start(k - 1)
-                empty = src.match(k + 2) == k + 3
+                empty = src.match(po) == po + 1
                 kv = dict(a.split('=', 1) for a in s.args[3:] if '=' in a)
                 if 'bind' in kv:
                     # `{ let NAME = RECV; <ghost> wrapper(NAME, ARGS) }`  (N10 + N19)
                     t, ids = mark_obligations(s.text); clause_ids += ids
                     self.ed.insert(src.t(rs).start, '{ let %s = ' % kv['bind'])
-                    self.ed.replace(src.t(k).start, src.t(k + 2).end, '; ' + t + ' ' + wrapper + '(' + kv['bind'] + ('' if empty else ', '))
-                    self.ed.insert(src.t(src.match(k + 2)).end, ' }')
+                    self.ed.replace(src.t(k).start, src.t(po).end, '; ' + t + ' ' + wrapper + '(' + kv['bind'] + ('' if empty else ', '))
+                    self.ed.insert(src.t(src.match(po)).end, ' }')
                     applied.append('N19')
                 else:
                     self.ed.insert(src.t(rs).start, wrapper + '(')
-                    self.ed.replace(src.t(k).start, src.t(k + 2).end, '' if empty else ', ')
+                    self.ed.replace(src.t(k).start, src.t(po).end, '' if empty else ', ')
                 applied.append('N10')
 
         # ---- N19: name the receiver temporary of a method call: `RECV.m(ARGS)` -> `{ let mut NAME = RECV; <ghost> NAME.m(ARGS) }`
@@ -386,6 +417,7 @@ class FileSplicer:
             'line': self.text.count('\n', 0, src.t(it.kw_si).start) + 1,
             'props': props, 'implicit': implicit, 'rules': sorted(set(applied)), 'clauses': clause_ids,
             'loops': nloops, 'kind': d.args[0] if d.word == 'lift' else d.word,
+            'assumed_here': 'external_body' in attr_txt,
         })
         return attr_txt
 
@@ -698,6 +730,16 @@ class FileSplicer:
                 t, ids = mark_obligations(d.text)
                 appends.append('verus!{\n' + t.replace('/*@blk*/', '').replace('/*@endblk*/', '') + '\n}\n')
                 self.report['ghost_clauses'] += ids
+            elif d.word == 'lemma':
+                # a property-level proof fn (theorem over the contracts), verified on every run; attributed like a lifted fn
+                name = d.args[0]
+                props = [p for a in d.args[1:] for p in a.split(',') if p]
+                t, ids = mark_obligations(d.text)
+                t = t.replace('/*@blk*/', '').replace('/*@endblk*/', '')
+                appends.append('verus!{\n/*@fn lemma:%s*/\n/*@blk*/%s/*@endblk*/\n/*@endfn*/\n}\n' % (name, t))
+                self.report['functions'].append({'key': 'lemma:' + name, 'file': fs.path, 'line': 0, 'props': props, 'implicit': props, 'rules': [],
+                                                 'clauses': ids, 'loops': 0, 'kind': 'lemma', 'verus_name': name,
+                                                 'proof_fns': re.findall(r'\bproof fn (\w+)', d.text)})
             elif d.word == 'appendraw':
                 appends.append(d.text + '\n')
             elif d.word == 'delete':
@@ -725,6 +767,42 @@ class FileSplicer:
                 attr = ''.join(s.text.strip() + '\n' for s in d.subs if s.word == 'attr')
                 self.ed.insert(it.lo, 'verus!{\n' + attr)
                 self.ed.insert(it.hi, '\n}')
+                extra = ''.join(s.text + '\n' for s in d.subs if s.word == 'member')
+                if extra:
+                    if it.body_open < 0: raise SpliceError('unsupported: member on an item without a body: %s' % name)
+                    self.ed.insert(src.t(it.body_open).end, '\n' + extra)
+                for s in d.subs:
+                    if s.word == 'constspec':
+                        # N13: `const X: &T = LIT;` -> `#[verifier::external_body] exec const X: &'static T ensures <..> { LIT }`
+                        # (Verus gives a literal no meaning: its value is an ASSUMED fact, checked by executing the constant)
+                        k = it.kw_si
+                        colon = k + 2
+                        if not src.is_p(colon, ':'): raise SpliceError('unsupported const shape: %s' % name)
+                        q = colon + 1
+                        while not src.is_p(q, '='): q = src.skip_group(q)
+                        semi = q
+                        while not src.is_p(semi, ';'): semi = src.skip_group(semi)
+                        t, ids = mark_obligations(s.text)
+                        self.ed.insert(src.t(k).start, '#[verifier::external_body] exec ')
+                        if src.is_p(colon + 1, '&') and src.t(colon + 2).kind != 'lifetime':
+                            self.ed.insert(src.t(colon + 1).end, "'static ")
+                        self.ed.replace(src.t(q).start, src.t(q).end, t + ' {')
+                        self.ed.replace(src.t(semi).start, src.t(semi).end, ' }')
+                        self.report['file_rules'].append({'file': fs.path, 'rule': 'N13', 'text': 'const %s (value assumed: %s)' % (name, ','.join(ids))})
+                for s in d.subs:
+                    if s.word == 'traitspec':
+                        # contract on a trait method declaration (no body): text goes before its ';'
+                        c = [x for x in it.children if x.kind == 'fn' and x.name == s.args[0]]
+                        if not c: raise SpliceError('lost anchor: trait %s has no method %s' % (name, s.args[0]))
+                        m = c[0]
+                        t, ids = mark_obligations(s.text)
+                        props = [p for a in s.args[1:] for p in a.split(',') if p]
+                        if m.body_open >= 0:
+                            self.ed.insert(src.t(m.body_open).start, '\n' + t + '\n')
+                        else:
+                            self.ed.insert(m.hi - 1, '\n' + t + '\n')
+                        self.report['functions'].append({'key': '%s::%s' % (name, m.name), 'file': fs.path, 'line': self.text.count('\n', 0, src.t(m.kw_si).start) + 1,
+                                                         'props': props, 'implicit': [], 'rules': [], 'clauses': ids, 'loops': 0, 'kind': 'trait-contract'})
                 for s in d.subs:
                     if s.word == 'tokens':
                         pat = pat_tokens(s.args[1])
@@ -853,11 +931,11 @@ class FileSplicer:
         self.report['file_rules'].append({'file': self.fs.path, 'rule': 'N15-ghostfield', 'text': '%s.%s (%d literals)' % (sname, fname, n)})
 
 
-def splice(root: str, spec_paths: List[str], contracts_dir: str) -> dict:
+def splice(root: str, spec_paths: List[str], contracts_dir: str, unit: str = '') -> dict:
     report = {'functions': [], 'items': [], 'file_rules': [], 'ghost_clauses': []}
     byfile: Dict[str, vspec.FileSpec] = {}
     for sp in spec_paths:
-        for fs in vspec.parse(sp):
+        for fs in vspec.parse(sp, unit):
             if fs.path in byfile:
                 byfile[fs.path].dirs += fs.dirs
             else:
@@ -892,5 +970,6 @@ def build_linemap(path: str):
 
 if __name__ == '__main__':
     root = sys.argv[1]
-    rep = splice(root, sys.argv[2:], os.path.join(os.path.dirname(os.path.abspath(__file__)), '..', 'contracts'))
+    unit = os.environ.get('VX_UNIT', 'P')
+    rep = splice(root, sys.argv[2:], os.path.join(os.path.dirname(os.path.abspath(__file__)), '..', 'contracts'), unit)
     json.dump(rep, sys.stdout, indent=1)
